@@ -417,6 +417,16 @@ func c02Stuck(result string) {
 	os.Exit(7)
 }
 
+func c02NilEntries(errs []*engine.TaskError) int {
+	nils := 0
+	for _, e := range errs {
+		if e == nil || e.ErrorMap == nil || e.Event == nil {
+			nils++
+		}
+	}
+	return nils
+}
+
 type c02Fin interface{ IsFinished() bool }
 
 func c02Run(payload string) string {
@@ -487,11 +497,14 @@ func c02Run(payload string) string {
 	}
 	proc.SetRootMonitorErrorObserver(func(rm *engine.RootMonitor) {
 		errs := rm.AllErrors()
-		nils := 0
-		for _, e := range errs {
-			if e == nil || e.ErrorMap == nil || e.Event == nil {
-				nils++
+		nils := c02NilEntries(errs)
+		// keep asking for a short while: other failing tasks of the cascade pass through
+		// SetErrors … Finish meanwhile (this is what makes the window reachable without hooks)
+		for i := 0; i < 300; i++ {
+			if i%8 == 7 {
+				runtime.Gosched()
 			}
+			nils += c02NilEntries(rm.AllErrors())
 		}
 		st.mu.Lock()
 		st.obsDone++
@@ -735,11 +748,14 @@ func c02RunEcal(plan *c02Plan, st *c02State) string {
 	proc.ThreadPool().TooManyCallback = func() {}
 	proc.SetRootMonitorErrorObserver(func(rm *engine.RootMonitor) {
 		errs := rm.AllErrors()
-		nils := 0
-		for _, e := range errs {
-			if e == nil || e.ErrorMap == nil || e.Event == nil {
-				nils++
+		nils := c02NilEntries(errs)
+		// keep asking for a short while: other failing tasks of the cascade pass through
+		// SetErrors … Finish meanwhile (this is what makes the window reachable without hooks)
+		for i := 0; i < 300; i++ {
+			if i%8 == 7 {
+				runtime.Gosched()
 			}
+			nils += c02NilEntries(rm.AllErrors())
 		}
 		st.mu.Lock()
 		st.obsDone++
@@ -958,6 +974,13 @@ func init() {
 					g.Count("corpus")
 					emit(w, false, true, []c02Casc{lit(c)})
 				}
+			}
+			// many tasks of one cascade failing at the same time on many workers: the error observers
+			// overlap with other tasks' SetErrors … Finish even when no hook is compiled in
+			wide := "w=-.-.t.o" + strings.Repeat("/0.0.t.x", 12)
+			for i := 0; i < 60; i++ {
+				g.Count("corpus wide failing cascade")
+				emit(16, false, i%2 == 0, []c02Casc{lit(wide)})
 			}
 			ecalMode = true
 			for _, c := range corpus[:2] {
